@@ -93,7 +93,7 @@ def _work(arg):
         status, backend, detail, wit = st
         out.append((f"generic-systems/{'DenseConstrained' if constrained else 'Euclidean'}[{shown}]/{oid}",
                     {"discharged": core.DISCHARGED, "failed": core.FAILED, "unknown": core.UNKNOWN}[status], backend, secs, detail,
-                    None if wit is None else dict(wit, metric=label, constrained=constrained, reassigned=reassigned, obligation=oid)))
+                    None if (wit is None and status != "failed") else dict(wit or {}, metric=label, constrained=constrained, reassigned=reassigned, obligation=oid)))
 
     def attempt(oid, fn):
         t0 = time.time()
@@ -250,6 +250,8 @@ def _work(arg):
 def run_generic_systems(run, keep=None, procs=16):
     """adds the dimension-generic system obligations selected by keep(oid)"""
     import multiprocessing as mp
+    import json as _json
+    run.replay_for("generic-systems/", lambda w: {"script": "generic_systems.py", "args": [_json.dumps(w or {})], "timeout": 300})
     M, S, ST = load()
     with ncalg.shimmed(M):
         ncalg.reset()
